@@ -21,5 +21,8 @@ CONSTANTS
  DevInplaceInput = FALSE
  DevMoveBeforeClose = TRUE
  DevRouteDiscard = FALSE
+ DevStageFallback = FALSE
+ DevBackupSkip = FALSE
+ EnvInits <- MCEnvInits
 INVARIANT SuccessState
 CHECK_DEADLOCK FALSE
